@@ -332,8 +332,19 @@ def direct(seed, tier, model, stats):
     count = 400 if tier == "quick" else 10000
     fails = []
     tested = {"closed_form": 0, "kernel": 0, "calls": 0, "arb": 0}
-    for i, (name, args, SR, n) in enumerate(shape_cases(r, tier, count)):
-        d = check_shape(name, args, SR, n)
+    cases = list(shape_cases(r, tier, count))
+    # narrow gaussians (the exponential underflows to 0 in the tails: still the closed form), placed after smooth-cutoff calls
+    for j in range(6):
+        SRn, nn = r.choice([1e6, 1e9, 100]), r.choice([200, 1000])
+        cases.insert(10 + 7 * j, ("gaussian_smooth_cutoff", [1.0, 0.2 * nn / SRn, 0.0, 0.0], SRn, nn))
+        cases.insert(11 + 7 * j, ("gaussian", [r.uniform(-2, 2), r.choice([0.004, 0.008]) * nn / SRn, 0.0, 0.25], SRn, nn))
+    for i, (name, args, SR, n) in enumerate(cases):
+        try:
+            with np.errstate(all="ignore"):
+                pass
+            d = check_shape(name, args, SR, n)
+        except Exception as e:  # noqa: BLE001 -- the shape itself raised
+            d = f"PulseAtoms.{name} raised {type(e).__name__}: {e}"
         tested["closed_form"] += 1
         if d is None and (i % 4 == 0 or tier != "quick") and n <= 3000:
             d = check_kernel(model, name, args, SR, n)
